@@ -43,6 +43,17 @@ Record sctx := mkSctx {
   x_maxdoc : N
 }.
 
+(* the family of SQL statements of C19 (semantics: eval_query below) *)
+Inductive qtemplate :=
+| QIds          (* SELECT json_quote(id) AS id FROM $_keyspace ORDER BY id *)
+| QBodies       (* SELECT json_quote(id) AS id, json_quote(hex(body)) AS hb FROM $_keyspace ORDER BY id *)
+| QCount        (* SELECT count( * ) AS n FROM $_keyspace *)
+| QIdEq (k : string)   (* SELECT json_quote(id) AS id FROM $_keyspace WHERE id = $k *)
+| QBodyA1       (* ... WHERE CASE WHEN json_valid(body) THEN body->>'$.a' END = 1 ORDER BY id *)
+| QXattrRev (v : string) (* ... WHERE xattrs->>'$._sync.rev' = $v ORDER BY id *)
+| QSync         (* SELECT json_quote(id) AS id, xattrs->'$._sync' AS s FROM $_keyspace ORDER BY id *)
+| QLast2.       (* SELECT json_quote(id) AS id FROM $_keyspace ORDER BY id DESC LIMIT 2 *)
+
 Inductive sop :=
 | SKv (coll : string) (key : string) (op : kop)
 | SPurge
@@ -50,6 +61,7 @@ Inductive sop :=
 | SDropColl (name : string)
 | SDump (coll : string) (start : N)      (* a one-shot (Dump) feed with backfill from CAS `start` *)
 | SReopen                                (* an on-disk bucket: every handle closed, then reopened *)
+| SQuery (coll : string) (q : qtemplate) (* Collection.Query with one of the family's statements *)
 | SExpire.                       (* the expiry timer fires (bucket.doExpiration) *)
 
 Record sres := mkSres {
@@ -121,6 +133,77 @@ Definition backfill_rows (s : store) (cid start : N) : list (dkey * row) :=
 Definition backfill_events (s : store) (cid start : N) : list fevent :=
   map (fun d => as_feed_event (cid - 1) (snd (fst d)) (event_of_row (snd d))) (backfill_rows s cid start).
 
+(* ------------------------------------------------------------------------------------------ *)
+(* SQL queries (collection+query.go).  `$_keyspace` is
+     SELECT key AS id, value AS body, xattrs FROM documents WHERE collection=<id> AND value NOT NULL
+   A family of statements over it; rows come back as the JSON text NextBytes builds (a NULL column
+   is left out of the row).                                                                     *)
+Definition qdoc := (string * string * list (string * string))%type.   (* id, body, xattrs *)
+
+Fixpoint insert_by_id (d : qdoc) (l : list qdoc) : list qdoc :=
+  match l with
+  | [] => [d]
+  | d' :: r => match String.compare (fst (fst d)) (fst (fst d')) with Lt => d :: l | _ => d' :: insert_by_id d r end
+  end.
+Definition sort_by_id (l : list qdoc) : list qdoc := fold_left (fun acc d => insert_by_id d acc) l [].
+
+Definition keyspace (s : store) (cid : N) : list qdoc :=
+  flat_map (fun d : dkey * row =>
+              if fst (fst d) =? cid then
+                match r_value (snd d) with
+                | Some v => [(snd (fst d), v, match xparse (r_xattrs (snd d)) with Some m => m | None => [] end)]
+                | None => []
+                end
+              else []) (s_docs s).
+
+Definition upper_hex (n : N) : ascii :=
+  match n with
+  | 0 => "0" | 1 => "1" | 2 => "2" | 3 => "3" | 4 => "4" | 5 => "5" | 6 => "6" | 7 => "7"
+  | 8 => "8" | 9 => "9" | 10 => "A" | 11 => "B" | 12 => "C" | 13 => "D" | 14 => "E" | _ => "F"
+  end%char.
+
+Definition hex_of_string (s : string) : string :=
+  (fix go (s : string) : string :=
+     match s with
+     | EmptyString => EmptyString
+     | String c r => let n := N_of_ascii c in
+                     String (upper_hex (n / 16)) (String (upper_hex (n mod 16)) (go r))
+     end) s.
+
+Definition row_id (id : string) : string := ("{""id"":" ++ quote id ++ "}")%string.
+
+Definition body_a_is_1 (body : string) : bool :=
+  match jparse body with
+  | Some (JObj m) => match obj_get "a" m with Some (JNum false 1) | Some (JBool true) => true | _ => false end
+  | _ => false
+  end.
+
+Definition sync_rev (xs : list (string * string)) : option string :=
+  match alookup String.eqb "_sync" xs with
+  | Some v => match jparse v with
+              | Some (JObj m) => match obj_get "rev" m with Some (JStr r) => Some r | _ => None end
+              | _ => None
+              end
+  | None => None
+  end.
+
+Definition eval_query (q : qtemplate) (docs : list qdoc) : list string :=
+  let sorted := sort_by_id docs in
+  match q with
+  | QIds => map (fun d => row_id (fst (fst d))) sorted
+  | QBodies => map (fun d => ("{""id"":" ++ quote (fst (fst d)) ++ ",""hb"":" ++ quote (hex_of_string (snd (fst d))) ++ "}")%string) sorted
+  | QCount => [("{""n"":" ++ N_to_dec (N.of_nat (List.length docs)) ++ "}")%string]
+  | QIdEq k => map (fun d => row_id (fst (fst d))) (filter (fun d => String.eqb (fst (fst d)) k) sorted)
+  | QBodyA1 => map (fun d => row_id (fst (fst d))) (filter (fun d => body_a_is_1 (snd (fst d))) sorted)
+  | QXattrRev v => map (fun d => row_id (fst (fst d)))
+                       (filter (fun d => match sync_rev (snd d) with Some r => String.eqb r v | None => false end) sorted)
+  | QSync => map (fun d => match alookup String.eqb "_sync" (snd d) with
+                           | Some v => ("{""id"":" ++ quote (fst (fst d)) ++ ",""s"":" ++ v ++ "}")%string
+                           | None => row_id (fst (fst d))
+                           end) sorted
+  | QLast2 => map (fun d => row_id (fst (fst d))) (firstn 2 (rev sorted))
+  end.
+
 Definition marker (op : fopcode) : fevent := mkFevent op "" "" [] false false 0 0 0 0.
 
 Definition sstep (s : store) (x : sctx) (o : sop) : sres :=
@@ -159,6 +242,11 @@ Definition sstep (s : store) (x : sctx) (o : sop) : sres :=
       | None => mkSres s (RErr EOther) [] []
       end
   | SReopen => mkSres s ROk [] []
+  | SQuery coll q =>
+      match coll_id s coll with
+      | Some cid => mkSres s (RRows (eval_query q (keyspace s cid))) [] []
+      | None => mkSres s (RErr EOther) [] []
+      end
   | SExpire =>
       let '(s', evs) := expire_colls s x (map fst (s_colls s)) [] in
       mkSres s' ROk evs []
